@@ -600,6 +600,11 @@ func Scribble(r *shapes.Rec) {
 	for i := range r.AR {
 		scrLine(&r.AR[i])
 	}
+	for i := range r.AP {
+		if r.AP[i] != nil {
+			r.AP[i].N, r.AP[i].S = -7, "scribbled"
+		}
+	}
 	for k, l := range r.MS {
 		scrLine(&l) // the copy shares Tags / Attrs / Qty / Sub with the map value
 		_ = k
